@@ -179,6 +179,7 @@ var chainNodes = []nodeSpec{
 	{call: func(g *scriptGen) string { return "movingAverage(" + g.field() + ", 5)" }, in: "any", out: "same"},
 	{call: func(g *scriptGen) string { return "holtWinters(" + g.field() + ", 3, 0, " + g.dur() + ")" }, in: "batch", out: "same"},
 	{call: lit("last('value')\n        .as('value')"), in: "any", out: "same"},
+	{call: lit("trickle()"), in: "batch", out: "stream"},
 }
 
 func (g *scriptGen) source() (string, string) {
@@ -381,11 +382,13 @@ func genScriptCase(r *kit.Rand, i int) []string {
 		script = strings.ReplaceAll(script, "\n        .", ".")
 	}
 	ops := []string{"script " + kit.Esc(script), "dot " + g.edge, "sfmt", "sreparse", "dot " + g.edge, "sfmt", "sreparse", "sfmt"}
-	switch i % 3 {
+	// the tail is chosen independently of the edge type (i%3 picks the edge): stream AND batch tasks go through
+	// pipeline JSON and through pipeline/tick
+	switch (i / 3) % 3 {
 	case 0:
 		ops = append(ops, "pjson "+g.edge)
 	case 1:
-		ops = append(ops, "ptick "+g.edge, "dot "+g.edge)
+		ops = append(ops, "pnodes "+g.edge, "ptick "+g.edge, "dot "+g.edge)
 	}
 	return ops
 }
